@@ -177,6 +177,8 @@ theorem first_finisher_delivered (m : Mode) (pre : Bytes) (h : List Ev) :
       · exact Or.inr (hu hd)
     | halfClose =>
       exact Or.inl (hc ((run_invHalf h _ (invHalf_init pre)).torn ht).1)
+    | clientHalf =>
+      exact Or.inr (hu ((run_invCH h _ (invCH_init pre)).torn ht))
   · rw [hi.up]; exact (List.prefix_append_right_inj pre).mpr (List.take_prefix _ _)
   · rw [hi.cl]; exact List.take_prefix _ _
 
@@ -292,6 +294,105 @@ theorem half_close_reply_delivered_halfClose (pre : Bytes) (h : List Ev) :
 
 example : quiescent .halfClose (scenario .halfClose [] [1] [2] [3] .halfClose) := by decide
 
+/-- **The property's last sentence for the repaired teardown rule** (`clientHalf`: on the client's EOF the
+upstream is half-closed and the tunnel lives on until the upstream→client direction ends). For every history:
+once the upstream has finished and the proxy has nothing left to do, the client has received *everything* the
+upstream sent — in particular a reply sent after the upstream saw the client's EOF — and, if the client has
+finished too, the upstream has the client's whole stream unless the upstream's direction ended (and tore the
+tunnel down) before the client's did: then the upstream was the side that finished first. -/
+theorem half_close_reply_delivered_clientHalf (pre : Bytes) (h : List Ev) :
+    let s := run .clientHalf (Tun.init pre) h
+    quiescent .clientHalf s → s.uFin = true →
+    s.clSaw = s.uSent ∧
+    (s.cFin = true → s.upSaw = pre ++ s.cSent ∨ (s.torn = true ∧ s.c2uDone = false)) := by
+  have hff := first_finisher_delivered .clientHalf pre h
+  have hch := run_invCH h _ (invCH_init pre)
+  simp only at hff ⊢
+  generalize run .clientHalf (Tun.init pre) h = s at *
+  intro hq hu
+  have du : s.u2cDone = true := by
+    cases hd : s.u2cDone with
+    | true => rfl
+    | false =>
+      exfalso
+      have htorn : s.torn = false := by
+        cases ht : s.torn with
+        | false => rfl
+        | true => have := hch.torn ht; simp_all
+      have h1 := hq .fwdU2C (by simp [proxyEvs])
+      have h2 := hq .u2cEOF (by simp [proxyEvs])
+      simp only [step, htorn, hd, Bool.false_eq_true, or_self, if_false] at h1
+      have hlen : s.uSent.length = s.u2c := congrArg Tun.u2c h1
+      simp only [step, htorn, hd, hu, hlen, Bool.false_eq_true, Bool.not_true, Nat.lt_irrefl, or_self, if_false] at h2
+      have := congrArg Tun.u2cDone h2
+      simp [hd] at this
+  refine ⟨(hff.2.1 du).2, ?_⟩
+  intro hc
+  cases hd : s.c2uDone with
+  | true => exact Or.inl (hff.1 hd).2
+  | false =>
+    cases ht : s.torn with
+    | true => exact Or.inr ⟨rfl, rfl⟩
+    | false =>
+      exfalso
+      have h1 := hq .fwdC2U (by simp [proxyEvs])
+      have h2 := hq .c2uEOF (by simp [proxyEvs])
+      simp only [step, ht, hd, Bool.false_eq_true, or_self, if_false] at h1
+      have hlen : s.cSent.length = s.c2u := congrArg Tun.c2u h1
+      simp only [step, ht, hd, hc, hlen, Bool.false_eq_true, Bool.not_true, Nat.lt_irrefl, or_self, if_false] at h2
+      have := congrArg Tun.c2uDone h2
+      simp [hd] at this
+
+example : quiescent .clientHalf (scenario .clientHalf [] [1] [2] [3] .halfClose) ∧
+    (scenario .clientHalf [] [1] [2] [3] .halfClose).uFin = true := by decide
+
+/-- The half-close history on the repaired rule: the upstream has `HELLO`, the client has `REPLY`. -/
+theorem half_close_reply_witness_clientHalf :
+    let hello : Bytes := [72, 69, 76, 76, 79]
+    let reply : Bytes := [82, 69, 80, 76, 89]
+    (scenario .clientHalf [] hello [] reply .halfClose).upSaw = hello ∧
+    (scenario .clientHalf [] hello [] reply .halfClose).clSaw = reply ∧
+    (scenario .clientHalf [] hello [] reply .halfClose).torn = true := by
+  decide
+
+/-! ## The server closing the inbound connection (`Server.Shutdown` → `closeConns`) -/
+
+/-- In the modes the code has had — before the D14 repair and after it — the server closing the tunnel's inbound
+connection ends the tunnel, whatever has happened before (in particular after a client half-close with an idle
+upstream): `Server.Shutdown` bounds the lifetime of every tunnel. After that nothing is delivered any more. -/
+theorem server_close_ends_tunnel (m : Mode) (hm : m = .firstEnds ∨ m = .clientHalf) (pre : Bytes) (h h' : List Ev) :
+    let s := serverClose m (run m (Tun.init pre) h)
+    s.torn = true ∧ (run m s h').torn = true ∧ (run m s h').clSaw = s.clSaw ∧ (run m s h').upSaw = s.upSaw := by
+  intro s
+  have ht : s.torn = true := by rcases hm with rfl | rfl <;> rfl
+  exact ⟨ht, torn_run m h' s ht⟩
+
+example : (serverClose .clientHalf (run .clientHalf (Tun.init []) [.clientSend [1], .fwdC2U, .clientFin, .c2uEOF])).torn = true ∧
+    (run .clientHalf (Tun.init []) [.clientSend [1], .fwdC2U, .clientFin, .c2uEOF]).torn = false := by decide
+
+/-- Why the symmetric repair (`halfClose`: propagate the EOF, wait for both directions) was rejected: after a
+client half-close, with an upstream that stays idle, the server closing the inbound connection does **not** end
+the tunnel, whatever the proxy does afterwards — handler and outbound socket outlive `Server.Shutdown`. -/
+theorem naive_half_close_survives_shutdown (h' : List Ev) (hp : ∀ e ∈ h', e ∈ proxyEvs) :
+    let s := serverClose .halfClose (run .halfClose (Tun.init []) [.clientSend [1], .fwdC2U, .clientFin, .c2uEOF])
+    (run .halfClose s h').torn = false ∧ (run .halfClose s h').upSaw = [1] := by
+  intro s
+  have key : ∀ (l : List Ev) (t : Tun), (∀ e ∈ l, e ∈ proxyEvs) →
+      t.torn = false → t.u2cDone = false → t.uFin = false → t.c2uDone = true → t.upSaw = [1] →
+      (run .halfClose t l).torn = false ∧ (run .halfClose t l).upSaw = [1] := by
+    intro l
+    induction l with
+    | nil => intro t _ a _ _ _ e; exact ⟨a, e⟩
+    | cons e l ih =>
+      intro t hl a b c d f
+      have he : e ∈ proxyEvs := hl e (by simp)
+      have hl' : ∀ x ∈ l, x ∈ proxyEvs := fun x hx => hl x (by simp [hx])
+      simp only [proxyEvs, List.mem_cons, List.not_mem_nil, or_false] at he
+      show (run .halfClose (step .halfClose t e) l).torn = false ∧ _
+      rcases he with rfl | rfl | rfl | rfl | rfl <;>
+        (apply ih _ hl' <;> simp [step, a, b, c, d, f])
+  exact key h' s hp (by decide) (by decide) (by decide) (by decide) (by decide)
+
 /-- The closing orders the socket streams run (`scenario`, used by the driver as the prediction): with
 either side closing first after the barrier both ends have everything; with a client half-close the code's
 mode loses exactly the reply. -/
@@ -300,7 +401,9 @@ theorem scenario_outcomes (m : Mode) (pre c u reply : Bytes) :
     ((scenario m pre c u reply .upstream).upSaw = pre ++ c ∧ (scenario m pre c u reply .upstream).clSaw = u) ∧
     (scenario .firstEnds pre c u reply .halfClose).upSaw = pre ++ c ∧
     (scenario .firstEnds pre c u reply .halfClose).clSaw = u ∧
-    (scenario .halfClose pre c u reply .halfClose).clSaw = u ++ reply := by
+    (scenario .halfClose pre c u reply .halfClose).clSaw = u ++ reply ∧
+    (scenario .clientHalf pre c u reply .halfClose).upSaw = pre ++ c ∧
+    (scenario .clientHalf pre c u reply .halfClose).clSaw = u ++ reply := by
   cases m <;> simp [scenario, closeHistory, run, step, Tun.init]
 
 /-! ## PROXY protocol header -/
